@@ -1738,9 +1738,13 @@ class Emitter:
         # placement new: (placement args..., construct expr)
         ctor = None
         place = []
+        if not e.get('isPlacement') or e.get('isArray'):
+            raise Abort('non-placement new / array new')
+        alloc_t = re.sub(r'\s*\*$', '', (e['type'].get('qualType') or '').strip())
         for c in inner:
             sc = self.strip(c)
-            if sc['kind'] in ('CXXConstructExpr', 'CXXTemporaryObjectExpr') and c is inner[-1]:
+            if ctor is None and sc['kind'] in ('CXXConstructExpr', 'CXXTemporaryObjectExpr') and \
+                    re.sub(r'\bconst\b', '', sc['type']['qualType']).strip() == alloc_t:
                 ctor = sc
             else:
                 place.append(c)
